@@ -147,6 +147,71 @@ Fixpoint read_col_v1 (null : bool) (max_defi : N) (a : arr) (row_idx : nat) (pag
     end
   end.
 
+(* core.read_col AFTER the fix "read_col: append the leading continuation of a page in Python":
+   the entries of a page before its first rep == 0 continue row row_idx-1; read_col computes their
+   items itself (lead_items), extends assign[row_idx-1], and calls _assemble_objects only on the
+   rest of the page (which starts at a row boundary), or not at all when nothing is left.
+   read_col_v1 above is the loop as it was before that fix (kept: the exact extent of the two
+   .pyx defects is stated about it). *)
+Fixpoint lead_split (es : list entry) : list entry * list entry :=
+  match es with
+  | [] => ([], [])
+  | (r, d) :: t => if r =? 0 then ([], es) else let (l, rest) := lead_split t in ((r, d) :: l, rest)
+  end.
+
+(* items = []; for de in ld: if de == max_defi: items.append(next(vals)) elif de > null: items.append(None) *)
+Fixpoint lead_items (null : bool) (max_defi : N) (lead : list entry) (vals : list V)
+  : option (list (elem V) * list V) :=
+  match lead with
+  | [] => Some ([], vals)
+  | (_, d) :: t =>
+    if d =? max_defi then
+      match vals with
+      | v :: vs => option_map (fun x => (Some v :: fst x, snd x)) (lead_items null max_defi t vs)
+      | [] => None                                            (* next(vals): StopIteration *)
+      end
+    else if (if null then 1 else 0) <? d then
+      option_map (fun x => (None :: fst x, snd x)) (lead_items null max_defi t vals)
+    else lead_items null max_defi t vals
+  end.
+
+Fixpoint read_col_v1_py (null : bool) (max_defi : N) (a : arr) (row_idx : nat) (pages : list page)
+  : ares arr :=
+  match pages with
+  | [] => AOk a
+  | p :: t =>
+    let (lead, rest) := lead_split (fst p) in
+    let r1 :=
+      match lead with
+      | [] => AOk (a, snd p)
+      | _ :: _ =>
+        match row_idx with
+        | O => AErr BadSlice                                  (* raise ValueError: starts inside a row *)
+        | S _ =>
+          match lead_items null max_defi lead (snd p) with
+          | None => AErr ValIndex
+          | Some (items, vals') =>
+            match extend_prev a row_idx (rev items) with      (* assign[row_idx[0] - 1].extend(items) *)
+            | AOk a' => AOk (a', vals')
+            | AErr x => AErr x
+            end
+          end
+        end
+      end in
+    match r1 with
+    | AErr x => AErr x
+    | AOk (a1, vals1) =>
+      match rest with
+      | [] => read_col_v1_py null max_defi a1 row_idx t       (* if len(lrep): ... *)
+      | _ :: _ =>
+        match assemble_page null max_defi a1 row_idx (rest, vals1) with
+        | AOk (a2, i) => read_col_v1_py null max_defi a2 (S i) t
+        | AErr x => AErr x
+        end
+      end
+    end
+  end.
+
 (* core.read_data_page_v2: _assemble_objects(assign[idx:idx+num_rows], ..., null=<null>, prev_i=0);
    idx += num_rows.  The pinned tree passes null=True whatever the schema says. *)
 Fixpoint read_col_v2 (null : bool) (max_defi : N) (a : arr) (idx : nat) (pages : list (page * nat))
@@ -154,11 +219,17 @@ Fixpoint read_col_v2 (null : bool) (max_defi : N) (a : arr) (idx : nat) (pages :
   match pages with
   | [] => AOk a
   | (p, num_rows) :: t =>
-    let sl := firstn num_rows (skipn idx a) in
-    match assemble_page null max_defi sl 0 p with
-    | AOk (sl', _) =>
-      read_col_v2 null max_defi (firstn idx a ++ sl' ++ skipn (idx + num_rows) a) (idx + num_rows) t
-    | AErr x => AErr x
+    match fst p with
+    | [] => read_col_v2 null max_defi a (idx + num_rows) t       (* _v2_page_starts_row: an empty page is skipped *)
+    | (r, _) :: _ =>
+      if r =? 0 then
+        let sl := firstn num_rows (skipn idx a) in
+        match assemble_page null max_defi sl 0 p with
+        | AOk (sl', _) =>
+          read_col_v2 null max_defi (firstn idx a ++ sl' ++ skipn (idx + num_rows) a) (idx + num_rows) t
+        | AErr x => AErr x
+        end
+      else AErr BadSlice                                          (* ValueError: does not start at a row boundary *)
     end
   end.
 
@@ -172,6 +243,7 @@ Arguments cell {V}. Arguments write_row {V}. Arguments extend_prev {V}. Argument
 Arguments new_row {V}. Arguments add_level {V}.
 Arguments run_steps {V}. Arguments assemble_page {V}. Arguments read_col_v1 {V}.
 Arguments read_col_v2 {V}. Arguments empty_arr {V}.
+Arguments lead_items {V}. Arguments read_col_v1_py {V}.
 
 (* ---- how read_col derives the call's parameters from the schema (schema.py) ------------------
    A leaf's path is the list of repetition types of its ancestors (root excluded) and itself. *)
@@ -204,6 +276,10 @@ Definition call_null (path : list reptype) : bool := negb (sch_is_required (firs
 (* the whole v1 read of one column chunk into a fresh object array of n rows *)
 Definition run_v1 {V} (sh : shape) (n : nat) (pages : list (page V)) : ares (arr V) :=
   read_col_v1 (call_null (shape_path sh)) (sch_max_def (shape_path sh)) (empty_arr n) 0 pages.
+
+(* the v1 read of one column chunk as read_col does it now *)
+Definition run_v1_py {V} (sh : shape) (n : nat) (pages : list (page V)) : ares (arr V) :=
+  read_col_v1_py (call_null (shape_path sh)) (sch_max_def (shape_path sh)) (empty_arr n) 0 pages.
 
 (* v2: `pinned` = the pinned tree's null=True; otherwise the schema's value *)
 Definition run_v2 {V} (pinned : bool) (sh : shape) (n : nat) (pages : list (page V * nat)) : ares (arr V) :=
